@@ -22,7 +22,6 @@ package registrystate_test
 import (
 	"encoding/json"
 	"fmt"
-	"os"
 	"reflect"
 	"strings"
 	"sync"
@@ -220,9 +219,6 @@ func c30RunSystem(c verifc30.Case) (verifkit.Outcome, error) {
 	m := verifc30.NewModel(c)
 	st, accID, refused := c30World(c)
 	if refused != nil {
-		if os.Getenv("C30_DEBUG") != "" {
-			fmt.Println("VIEW-REFUSED:", refused)
-		}
 		return verifkit.Outcome{Skip: true, Labels: []string{"view-refused"}}, nil
 	}
 	st.Lock()
@@ -403,7 +399,7 @@ func TestVerifC30System(t *testing.T) {
 			return verifc30.GenRequests(t, verifkit.Size(16, 22))
 		},
 		Run:             c30RunSystem,
-		Floors:          map[string]float64{"multi-access": 0.2, "prefix-map": 0.08, "reject-after-accept": 0.2, "typed": 0.2, "ryw-checked": 0.15},
+		Floors:          map[string]float64{"multi-access": 0.2, "prefix-map": 0.2, "reject-after-accept": 0.2, "typed": 0.2, "ryw-checked": 0.15},
 		NonTrivialFloor: 0.5,
 	})
 }
